@@ -2,7 +2,7 @@ SPECIFICATION MCSpec
 CONSTANTS
   BITS = 2
   Fixed = TRUE
-  Ks = {1, 2, 3}
+  Ks = {1, 2, 3, 5}
   Alphabet = {1, 2}
   MaxLen = 2
   MaxN = 3
